@@ -470,7 +470,11 @@ class Gen:
         if i is None or self.ncursors >= 3:
             return
         self.ncursors += 1
-        self.ops.append({"k": "cursor_open", "t": i})
+        op = {"k": "cursor_open", "t": i}
+        prev = [o for o in self.ops if o["k"] == "cursor_open"]
+        if prev and self.rng.random() < 0.4:
+            op = {"k": "cursor_open", "t": prev[-1]["t"], "share": True}
+        self.ops.append(op)
 
     def g_pull(self):
         if self.ncursors:
@@ -563,7 +567,11 @@ class Gen:
             base["cols"] = sorted(set(base["cols"]) | {r.choice(missing)})
             edit = "missing"
         elif kind == "sel":
-            if r.random() < 0.8 and missing:
+            shared = [p for p in self.preds if not self._pcols(p) <= tgt.cols]
+            if shared and r.random() < 0.35:
+                base["p"] = r.choice(shared)       # same predicate object as an earlier, valid call
+                edit = "missing"
+            elif r.random() < 0.8 and missing:
                 extra = ["cmp", "lt", ["ref", r.choice(missing)], ["lit", 1]]
                 base["p"] = ["and", base["p"], extra] if r.random() < 0.6 else extra
                 edit = "missing"
